@@ -56,6 +56,7 @@ for _p, _w in (('C10', 'clauses C10_frame / C10_future (Element) and C10_frame (
                ('C16', 'clauses C16_pure / C16_future: to_string leaves the projection and every later outcome unchanged'),
                ('C19', 'clauses C19_class / C19_quiet at every recorded step of both campaigns')):
     CHECKS[_p] = elem(_p, _w + '; also every step of the Values campaign', 'DESIGN.md 3.3, 3.4, 6 ' + _p)
+CHECKS['C18'] = elem('C18', 'clauses C18_free (an unchecked element never raises for structural reasons and keeps insertion order) and C18_same (for valid in-order words the unchecked twin emits the same bytes as the checked one)', 'DESIGN.md 3.3, 6 C18')
 NA_REASON = 'check not built yet (construction in progress; DESIGN.md section 7 gives the order)'
 
 
